@@ -573,7 +573,25 @@ func extractHavingAggregates(having string, aggs map[string]aggregator.Aggregate
 	type span struct{ start, closeParen int }
 	var spans []span
 	var calls []string
+	// positions inside string literals: max(name) == 'count(x)' holds one aggregate call
+	inLiteral := make([]bool, len(having))
+	for i, quote := 0, byte(0); i < len(having); i++ {
+		c := having[i]
+		switch {
+		case quote != 0:
+			inLiteral[i] = true
+			if c == quote {
+				quote = 0
+			}
+		case c == '\'' || c == '"':
+			quote = c
+			inLiteral[i] = true
+		}
+	}
 	for _, m := range pattern.FindAllStringSubmatchIndex(having, -1) {
+		if inLiteral[m[0]] {
+			continue
+		}
 		nm := strings.ToLower(having[m[2]:m[3]])
 		fn, ok := functions.Get(nm)
 		if !ok || fn.GetType() != functions.TypeAggregation {
